@@ -60,7 +60,11 @@ PROGRAMS = {
                                     ('class A:\n def f(self):\n  x=1\n  return None', 'class A:\n def f(self):\n  x=1')],
     'remove_object_base': [('class A(object):\n x=1', 'class A:\n x=1'), ('class A(B, object):\n x=1', 'class A(B):\n x=1'), ('class A(m.object):\n x=1', 'class A(m.object):\n x=1'),
                            ('class A(object, metaclass=M):\n x=1', 'class A(metaclass=M):\n x=1'), ('class A(Object):\n x=1', 'class A(Object):\n x=1'),
-                           ('x=f(object)', 'x=f(object)'), ('class A(*object):\n x=1', 'class A(*object):\n x=1')],
+                           ('x=f(object)', 'x=f(object)'), ('class A(*object):\n x=1', 'class A(*object):\n x=1'),
+                           # the base is only the builtin if nothing in the module binds the name (repaired in 3bb1e82)
+                           ('object=B\nclass A(object):\n x=1', 'object=B\nclass A(object):\n x=1'), ('def f(object):\n class A(object):\n  x=1', 'def f(object):\n class A(object):\n  x=1'),
+                           ('from m import *\nclass A(object):\n x=1', 'from m import *\nclass A(object):\n x=1'), ('import object\nclass A(object):\n x=1', 'import object\nclass A(object):\n x=1'),
+                           ('class object:\n x=1\nclass A(object):\n x=1', 'class object:\n x=1\nclass A(object):\n x=1'), ('x=object\nclass A(object):\n x=1', 'x=object\nclass A:\n x=1')],
     'remove_builtin_exception_brackets': [('raise ValueError()', 'raise ValueError'), ('raise ValueError(1)', 'raise ValueError(1)'), ('raise E()', 'raise E()'),
                                           ('raise ValueError() from KeyError()', 'raise ValueError from KeyError'), ('x=ValueError()', 'x=ValueError()'),
                                           ('ValueError=1\nraise ValueError()', 'ValueError=1\nraise ValueError()'), ('raise ValueError(*a)', 'raise ValueError(*a)'),
